@@ -82,3 +82,210 @@ Proof.
   - exists s. split; [reflexivity|]. vm_compute in E. inversion E; subst. reflexivity.
   - vm_compute in E. discriminate.
 Qed.
+
+(* ======================= the tail -f contract (model in FlushModel.v, proofs in Flush.v) ======================= *)
+From Miller Require Import C04.DataPipeline C04.Batch C04.FlushModel C04.Flush.
+
+(* With --fflush (the writer flushes its bufio.Writer after every item): for EVERY chain of verbs (arbitrary
+   deterministic per-batch state machines), every input cut into batches in any way, every interleaving of reader,
+   verbs and writer: in every reachable state in which the reader has handed over exactly the batches [delivered]
+   (the lines of [pending] have not arrived yet) and the verbs and the writer have come to rest, a reader of mlr's
+   stdout already sees exactly the chain's sequential output for the delivered batches, and nothing is left in the
+   buffer -- whatever arrives later. *)
+Theorem C04_tail_f_contract :
+  forall (item vst : Type) (vs : list (dverb item vst * vst)) (delivered pending : list (batch item))
+         (s : fstate item vst),
+    freach item vst true (finit item vst vs (delivered ++ pending)) s ->
+    rrem item vst (fd item vst s) = pending -> fquiet item vst s = true ->
+    flushed item vst s = items item (seq_chain item vst vs delivered) /\ buffered item vst s = [].
+Proof. exact tail_f_contract. Qed.
+Print Assumptions C04_tail_f_contract.
+
+(* the rest condition is what it says: no verb step and no writer step is enabled *)
+Theorem C04_quiet_means_no_verb_or_writer_step :
+  forall (item vst : Type) (fl : bool) (s : fstate item vst),
+    fquiet item vst s = true -> nonreader_fsuccs item vst fl s = [].
+Proof. exact quiet_no_step. Qed.
+Print Assumptions C04_quiet_means_no_verb_or_writer_step.
+
+(* The contract in the words of the property text: --fflush, --records-per-batch 1, a chain of FULLY STREAMING
+   verbs (per-record state machines which, wherever the input stops, have nothing left to emit at end of stream):
+   once the records [delivered] have arrived and the pipeline is at rest, stdout shows the COMPLETE output of the
+   chain on those records (what `mlr chain` prints for a file holding exactly them) -- before any further input. *)
+Theorem C04_tail_f_streaming_chain :
+  forall (item st : Type) (c : list (sverb item st * st)) (delivered : list item) (pending : list (batch item))
+         (s : fstate item st),
+    all_streaming item st c ->
+    freach item st true (finit item st (dchain item st c) (singletons item delivered ++ pending)) s ->
+    rrem item st (fd item st s) = pending -> fquiet item st s = true ->
+    flushed item st s = chain_out item st c delivered.
+Proof. exact streaming_tail_f. Qed.
+Print Assumptions C04_tail_f_streaming_chain.
+
+(* ... for each i: after the i-th record of any input has been delivered *)
+Theorem C04_tail_f_each_record :
+  forall (item st : Type) (c : list (sverb item st * st)) (records : list item) (i : nat) (s : fstate item st),
+    all_streaming item st c ->
+    freach item st true (finit item st (dchain item st c) (singletons item records)) s ->
+    rrem item st (fd item st s) = singletons item (skipn i records) -> fquiet item st s = true ->
+    flushed item st s = chain_out item st c (firstn i records).
+Proof. exact streaming_tail_f_each_record. Qed.
+Print Assumptions C04_tail_f_each_record.
+
+(* while the pipe is open, a chain of fully streaming verbs has produced the complete output for what it was given *)
+Theorem C04_streaming_chain_visible :
+  forall (item st : Type) (c : list (sverb item st * st)),
+    all_streaming item st c -> forall bs : list (batch item), noeos item bs = true ->
+    items item (seq_chain item st (dchain item st c) bs) = chain_out item st c (items item bs).
+Proof. exact streaming_chain_visible. Qed.
+Print Assumptions C04_streaming_chain_visible.
+
+(* without --fflush only stdout + buffer is determined ... *)
+Theorem C04_no_fflush_only_sum_determined :
+  forall (item vst : Type) (fl : bool) (vs : list (dverb item vst * vst)) (delivered pending : list (batch item))
+         (s : fstate item vst),
+    freach item vst fl (finit item vst vs (delivered ++ pending)) s ->
+    rrem item vst (fd item vst s) = pending -> fquiet item vst s = true ->
+    flushed item vst s ++ buffered item vst s = items item (seq_chain item vst vs delivered).
+Proof. exact no_fflush_partial. Qed.
+Print Assumptions C04_no_fflush_only_sum_determined.
+
+(* ... and the contract FAILS without --fflush: cat, one record delivered, at rest, nothing visible *)
+Theorem C04_tail_f_without_fflush_refuted :
+  exists s : fstate nat nat,
+    freach nat nat false (finit nat nat (dchain nat nat [(v_cat nat nat, 0)]) (singletons nat [7] ++ [])) s /\
+    rrem nat nat (fd nat nat s) = [] /\ fquiet nat nat s = true /\ flushed nat nat s = [] /\ buffered nat nat s = [7]
+    /\ chain_out nat nat [(v_cat nat nat, 0)] [7] = [7].
+Proof. exact no_fflush_refuted. Qed.
+Print Assumptions C04_tail_f_without_fflush_refuted.
+
+(* ... and FAILS for a retaining verb even with --fflush: tac *)
+Theorem C04_tail_f_retaining_verb_refuted :
+  exists s : fstate nat (list nat),
+    freach nat (list nat) true (finit nat (list nat) (dchain nat (list nat) [(v_tac nat, [])]) (singletons nat [7] ++ [])) s /\
+    rrem nat (list nat) (fd nat (list nat) s) = [] /\ fquiet nat (list nat) s = true /\ flushed nat (list nat) s = []
+    /\ chain_out nat (list nat) [(v_tac nat, [])] [7] = [7].
+Proof. exact retaining_verb_refuted. Qed.
+Print Assumptions C04_tail_f_retaining_verb_refuted.
+
+(* fully streaming: cat, put/sec2gmt/rename/... (stateful per-record maps), filter/grep/decimate (0 or 1 outputs),
+   nest --explode/repeat (0..n outputs), tee (identity + side effect), head (until and after its quota);
+   not fully streaming: tac, step -a shift_lead *)
+Theorem C04_streaming_instances :
+  forall (item st : Type) (x0 : st),
+    (fully_streaming item st (v_cat item st) x0)
+    /\ (forall g upd, fully_streaming item st (v_map item st g upd) x0)
+    /\ (forall p upd, fully_streaming item st (v_filter item st p upd) x0)
+    /\ (forall g upd, fully_streaming item st (v_flatmap item st g upd) x0)
+    /\ (forall log, fully_streaming item st (v_tee item st log) x0)
+    /\ (forall k c0, fully_streaming item nat (v_head item k) c0).
+Proof.
+  exact (fun item st x0 =>
+    conj (cat_streaming item st x0)
+   (conj (fun g upd => map_streaming item st g upd x0)
+   (conj (fun p upd => filter_streaming item st p upd x0)
+   (conj (fun g upd => flatmap_streaming item st g upd x0)
+   (conj (fun log => tee_streaming item st log x0)
+         (fun k c0 => head_streaming item k c0)))))).
+Qed.
+Print Assumptions C04_streaming_instances.
+
+Theorem C04_retaining_verbs_not_streaming :
+  ~ fully_streaming nat (list nat) (v_tac nat) [] /\ ~ fully_streaming nat (option nat) (v_lead nat (fun p _ => p)) None.
+Proof. exact (conj tac_not_streaming lead_not_streaming). Qed.
+Print Assumptions C04_retaining_verbs_not_streaming.
+
+(* non-vacuity: cat then head -n 2, three records, two delivered: all hypotheses of the contract hold in a run of the
+   model and both records are on stdout *)
+Example C04_tail_f_nonvacuous :
+  let c := [(v_cat nat nat, 0); (v_head nat 2, 0)] in
+  all_streaming nat nat c /\
+  exists s : fstate nat nat,
+    freach nat nat true (finit nat nat (dchain nat nat c) (singletons nat [5; 6] ++ singletons nat [7])) s /\
+    rrem nat nat (fd nat nat s) = singletons nat [7] /\ fquiet nat nat s = true /\ flushed nat nat s = [5; 6]
+    /\ chain_out nat nat c [5; 6] = [5; 6].
+Proof. exact tail_f_nonvacuous. Qed.
+
+(* ======================= refinement: the data-carrying model with done flags projects onto the skeleton ======================= *)
+From Miller Require Import C04.DataFlags C04.Refine C04.EarlyExit C04.EarlyInst.
+
+(* Forward simulation (no stuttering): every step of the data-carrying model (batches of records and strings, per-record
+   verbs, head's own flag tied to its counter, relay, tee's swallow, the producer that stops reading on a flag) is a
+   step of the control skeleton between the projected states. *)
+Theorem C04_data_model_refines_skeleton :
+  forall (rec str st : Type) (s s' : @DataFlags.fstate rec str st),
+    DataFlags.fstep 1 s s' -> step false (proj s) (proj s').
+Proof. exact (@forward_simulation). Qed.
+Print Assumptions C04_data_model_refines_skeleton.
+
+(* Converse enabledness: a data state that cannot move projects to a skeleton state that cannot move. *)
+Theorem C04_stuck_data_state_projects_to_stuck_skeleton_state :
+  forall (rec str st : Type) (s : @DataFlags.fstate rec str st),
+    DataFlags.fwr s <> WErr -> DataFlags.fsuccs 1 s = [] -> succs false (proj s) = [].
+Proof. exact (@stuck_projects). Qed.
+Print Assumptions C04_stuck_data_state_projects_to_stuck_skeleton_state.
+
+(* Transferred: no deadlock and termination of the data-carrying model, for every chain of verbs, every input and
+   every interleaving. *)
+Theorem C04_data_model_no_deadlock :
+  forall (rec str st : Type) (vs : list (@verb rec str st * st)) (bs : list (list (@item rec str))) s,
+    vs <> [] -> DataFlags.freach 1 (DataFlags.finit vs bs) s -> ffinal s = false -> exists s', DataFlags.fstep 1 s s'.
+Proof. exact (@data_no_deadlock). Qed.
+Print Assumptions C04_data_model_no_deadlock.
+
+Theorem C04_data_model_every_run_terminates :
+  forall (rec str st : Type) (vs : list (@verb rec str st * st)) (bs : list (list (@item rec str))), vs <> [] ->
+  forall s, DataFlags.freach 1 (DataFlags.finit vs bs) s -> exists s', DataFlags.freach 1 s s' /\ ffinal s' = true.
+Proof. exact (@data_every_run_terminates). Qed.
+Print Assumptions C04_data_model_every_run_terminates.
+
+(* ======================= stdout determinism WITH early-exit verbs ======================= *)
+(* For chains Q ++ R (nq = length of Q) in which every verb of Q emits records only (no print/emit text) and obeys
+   head's discard invariant (once it wants to raise its flag it never emits again), and no verb of R raises a flag:
+   under EVERY interleaving of producer, verbs (own flags, relays, tee swallowing), writer and main, and for both
+   producer shapes (keep = 1: line readers; keep = 0: seqgen), a run that has drained wrote -- up to the cutting into
+   batches -- exactly the sequential composition of the verbs applied to the WHOLE input: the done signal only
+   truncates input the chain would have discarded anyway.
+   PARTIAL in one respect: "has drained" is the hypothesis [fquiescent]; that every exited run (ffinal) is drained is
+   proved for the control part only (C17_exit0_implies_complete via the projection), not for queue contents. *)
+Theorem C04_early_exit_determinism :
+  forall (rec str st : Type) (keep nq : nat) (vs : list (@verb rec str st * st)) (bs : list (list (@item rec str))) s,
+    chain_ok nq vs -> forallb recs_only bs = true -> DataFlags.freach keep (DataFlags.finit vs bs) s -> fquiescent s ->
+    flat (fout s) = flat (DataFlags.seq_chain vs (whole bs)).
+Proof. exact (@early_exit_determinism). Qed.
+Print Assumptions C04_early_exit_determinism.
+
+(* ... and at every moment of every run what has been written is a prefix of that *)
+Theorem C04_early_exit_written_is_prefix :
+  forall (rec str st : Type) (keep nq : nat) (vs : list (@verb rec str st * st)) (bs : list (list (@item rec str))) s,
+    chain_ok nq vs -> forallb recs_only bs = true -> DataFlags.freach keep (DataFlags.finit vs bs) s ->
+    exists rest, flat (DataFlags.seq_chain vs (whole bs)) = flat (fout s) ++ rest.
+Proof. exact (@early_exit_prefix). Qed.
+Print Assumptions C04_early_exit_written_is_prefix.
+
+(* the same with a COMPUTABLE hypothesis, for chains of cat / tee / head -n k / tac / put 'print': chain_okb holds
+   iff no printing verb is upstream of a head *)
+Theorem C04_early_exit_determinism_head_tee_tac_chains :
+  forall (keep : nat) (ds : list vdesc) (bs : list (list nat)) s,
+    chain_okb ds = true ->
+    DataFlags.freach keep (DataFlags.finit (chain_of ds) (rec_batches bs)) s -> fquiescent s ->
+    flat (fout s) = flat (DataFlags.seq_chain (chain_of ds) (whole (rec_batches bs))).
+Proof. exact early_exit_determinism_inst. Qed.
+Print Assumptions C04_early_exit_determinism_head_tee_tac_chains.
+
+(* The known-finding class "output statement upstream of an early-exit verb" on the model: put 'print' then head -n 1
+   on six one-record batches has two terminated, drained runs with different stdout. *)
+Theorem C04_print_upstream_of_head_refuted :
+  exists s1 s2, DataFlags.freach 1 (DataFlags.finit print_head four) s1 /\ DataFlags.freach 1 (DataFlags.finit print_head four) s2
+                /\ fquiescent s1 /\ fquiescent s2 /\ ffinal s1 = true /\ ffinal s2 = true
+                /\ flat (fout s1) <> flat (fout s2).
+Proof. exact print_upstream_of_head_refuted. Qed.
+Print Assumptions C04_print_upstream_of_head_refuted.
+
+(* non-vacuity: cat, head -n 3, tee, head -n 2, tac satisfies the chain condition and has a terminated drained run
+   (in which the producer was cut short) writing records 2 1 *)
+Example C04_early_exit_nonvacuous :
+  chain_okb hh = true /\
+  exists s, frun_sched 1 schedH (DataFlags.finit (chain_of hh) four) = Some s /\ fquiescentb s = true /\ ffinal s = true
+            /\ length (frem s) < 3 /\ flat (fout s) = [inl 2; inl 1].
+Proof. exact early_exit_nonvacuous. Qed.
